@@ -55,7 +55,8 @@ def eval_bool(e, env, atoms=None):
         v = value_of(e.args[0], env)
         if v is _NOVAL:
             return UNKNOWN
-        tnames = [ast.unparse(t) for t in (e.args[1].elts if isinstance(e.args[1], ast.Tuple) else [e.args[1]])]
+        targ = _table_entry(e.args[1], env) or e.args[1]
+        tnames = [ast.unparse(t) for t in (targ.elts if isinstance(targ, ast.Tuple) else [targ])]
         known = {"list": list, "dict": dict, "str": str, "tuple": tuple, "int": int, "bool": bool, "float": float, "bytes": bytes}
         if all(t in known for t in tnames):
             return isinstance(v, tuple(known[t] for t in tnames))
@@ -87,7 +88,23 @@ def value_of(e, env):
         if any(v is _NOVAL for v in vals):
             return _NOVAL
         return vals
+    if isinstance(e, ast.Dict) and all(k is not None for k in e.keys):
+        # a table display: only its keys matter for membership tests
+        ks = [value_of(k, env) for k in e.keys]
+        if any(k is _NOVAL or isinstance(k, list) for k in ks):
+            return _NOVAL
+        return {k: v for k, v in zip(ks, e.values)}
     return _NOVAL
+
+
+def _table_entry(e, env):
+    """the value expression of `{...}[key]` when the key is known"""
+    if isinstance(e, ast.Subscript) and isinstance(e.value, ast.Dict):
+        k = value_of(e.slice, env)
+        tbl = value_of(e.value, env)
+        if k is not _NOVAL and isinstance(tbl, dict) and not isinstance(k, list) and k in tbl:
+            return tbl[k]
+    return None
 
 
 def _cmp(a, op, b):
